@@ -13,6 +13,7 @@ import numpy as np
 from vf.common import Plan, held, violated, inconclusive, rng_for, pick
 
 SPEC = {
+    "deciding_monitors": ["fn:resize", "fn:circshift", "fn:flip", "fn:downsample", "fn:upsample", "fn:array_to_blocks", "fn:blocks_to_array", "in:layout:F", "in:layout:strided", "in:complex64", "in:float32", "in:int64"],
     "rule": ("cases = one (function, shapes, parameters) tuple each for resize (default and "
              "explicit shifts), circshift, flip, downsample, upsample, array_to_blocks, "
              "blocks_to_array (1-3 block dims + batch dims; overlap/tiling/gap/non-dividing) "
